@@ -1,3 +1,4 @@
 pub mod core;
+pub mod gen;
 pub mod mval;
 pub mod props;
